@@ -468,11 +468,11 @@ pub fn run_probe_property<H: HB>(prop: &'static str, tier: Tier) -> Outcome {
     };
     let prios: Vec<i32> = (0..m).collect();
     let mut cfg = base_cfg(prop, k, &prios, A_REACH | match prop {
-        "C16" => A_CLEAR_DRAIN | A_DRAIN_FORGET | A_EXTEND,
+        "C16" => A_CLEAR_DRAIN | A_DRAIN_FORGET | A_EXTEND | A_CLONE,
         // sorted consumption after in-place mutation from either end
-        "C06" => A_ITER_MUT | A_ITER_MUT_BACK | A_RETAIN_MUT | A_RETAIN,
-        // iterators over queues that went through the bulk paths too
-        "C13" | "C09" => A_APPEND | A_RETAIN | A_EXTEND,
+        "C06" => A_ITER_MUT | A_ITER_MUT_BACK | A_RETAIN_MUT | A_RETAIN | A_CLONE,
+        // iterators over queues that went through the bulk paths (and clone_from into a used target) too
+        "C13" | "C09" => A_APPEND | A_RETAIN | A_EXTEND | A_CLONE,
         _ => 0,
     });
     cfg.append_max = 2;
@@ -642,7 +642,7 @@ pub fn pair_seqs(keys: &[u32], prios: &[i32], max_len: usize) -> Vec<Vec<Pair>> 
 pub fn long_seqs(n_present: u32, prios: &[i32]) -> Vec<Vec<Pair>> {
     let np = prios.len();
     let mut out = vec![];
-    for len in [17usize, 18, 24].into_iter().chain((n_present > 40).then_some(n_present as usize + 5)) {
+    for len in [17usize, 18, 24, 48].into_iter().chain((n_present > 40).then_some(n_present as usize + 5)) {
         // all new items, ascending / descending / constant priorities
         out.push((0..len).map(|i| (n_present + i as u32, 100, prios[i % np])).collect());
         out.push((0..len).map(|i| (n_present + i as u32, 100, prios[(len - i) % np])).collect());
@@ -1098,7 +1098,7 @@ pub fn run_c14<H: HB>(tier: Tier) -> Outcome {
             let Root::FromVec(pairs) = &seed else { continue };
             for d in [false, true] {
                 cases += 1;
-                let r = if d { big_equality::<DPQ<StdRandom>, DPQ<StdRandom>, DPQ<FnvBuild>>(pairs, |a, b| a == b, |a, b| a == b, |a, b| b == a) } else { big_equality::<PQ<StdRandom>, PQ<StdRandom>, PQ<FnvBuild>>(pairs, |a, b| a == b, |a, b| a == b, |a, b| b == a) };
+                let r = big_equality_c14(pairs, d);
                 if let Err(e) = r {
                     viol.push(Case { prop: prop.into(), hasher: StdRandom::NAME.into(), double: d, root: seed.clone(), ops: vec![], last: None, probe: Some("big-equality".into()), detail: e, universe: vec![], aux: None, trail: vec![], params: vec![] });
                     break 'outer;
@@ -1108,6 +1108,41 @@ pub fn run_c14<H: HB>(tier: Tier) -> Outcome {
     }
     absorb_post(&mut out, "== on queues of 15..257 (2049) elements built independently (From<Vec> / pushes in reverse order / FromIterator with another hasher type; separate RandomState instances), then one priority changed / one item removed", cases, viol, t0, json!({}));
     out
+}
+
+/// C18: == between independently built queues under every pairing of hasher types (also used by replay).
+pub fn big_equality_hashers(pairs: &[Pair], d: bool) -> Result<(), String> {
+    if d {
+        big_equality::<DPQ<StdRandom>, DPQ<StdRandom>, DPQ<CollideAll>>(pairs, |a, b| a == b, |a, b| a == b, |a, b| b == a)
+            .and_then(|_| big_equality::<DPQ<Seeded>, DPQ<Seeded>, DPQ<FixedSip>>(pairs, |a, b| a == b, |a, b| a == b, |a, b| b == a))
+            .and_then(|_| big_equality::<DPQ<FnvBuild>, DPQ<FnvBuild>, DPQ<StdRandom>>(pairs, |a, b| a == b, |a, b| a == b, |a, b| b == a))
+            .and_then(|_| big_equality::<DPQ<CollideAll>, DPQ<CollideAll>, DPQ<FnvBuild>>(pairs, |a, b| a == b && b == a, |a, b| a == b, |a, b| b == a))
+            .and_then(|_| big_equality::<DPQ<CollideSome>, DPQ<CollideSome>, DPQ<CollideAll>>(pairs, |a, b| a == b && b == a, |a, b| a == b, |a, b| b == a))
+    } else {
+        big_equality::<PQ<StdRandom>, PQ<StdRandom>, PQ<CollideAll>>(pairs, |a, b| a == b, |a, b| a == b, |a, b| b == a)
+            .and_then(|_| big_equality::<PQ<Seeded>, PQ<Seeded>, PQ<FixedSip>>(pairs, |a, b| a == b, |a, b| a == b, |a, b| b == a))
+            .and_then(|_| big_equality::<PQ<FnvBuild>, PQ<FnvBuild>, PQ<StdRandom>>(pairs, |a, b| a == b, |a, b| a == b, |a, b| b == a))
+            .and_then(|_| big_equality::<PQ<CollideAll>, PQ<CollideAll>, PQ<FnvBuild>>(pairs, |a, b| a == b && b == a, |a, b| a == b, |a, b| b == a))
+            .and_then(|_| big_equality::<PQ<CollideSome>, PQ<CollideSome>, PQ<CollideAll>>(pairs, |a, b| a == b && b == a, |a, b| a == b, |a, b| b == a))
+    }
+}
+
+/// C14: == between independently built queues (also used by replay).
+pub fn big_equality_c14(pairs: &[Pair], d: bool) -> Result<(), String> {
+    let n = pairs.len();
+    let r = if d { big_equality::<DPQ<StdRandom>, DPQ<StdRandom>, DPQ<FnvBuild>>(pairs, |a, b| a == b, |a, b| a == b, |a, b| b == a) } else { big_equality::<PQ<StdRandom>, PQ<StdRandom>, PQ<FnvBuild>>(pairs, |a, b| a == b, |a, b| a == b, |a, b| b == a) };
+    // hashers under which many (all) items collide: equality may not lean on hash values
+    r.and_then(|_| {
+        if n > 129 {
+            Ok(())
+        } else if d {
+            big_equality::<DPQ<CollideAll>, DPQ<CollideAll>, DPQ<CollideSome>>(pairs, |a, b| a == b && b == a, |a, b| a == b, |a, b| b == a)
+                .and_then(|_| big_equality::<DPQ<CollideSome>, DPQ<CollideSome>, DPQ<StdRandom>>(pairs, |a, b| a == b && b == a, |a, b| a == b, |a, b| b == a))
+        } else {
+            big_equality::<PQ<CollideAll>, PQ<CollideAll>, PQ<CollideSome>>(pairs, |a, b| a == b && b == a, |a, b| a == b, |a, b| b == a)
+                .and_then(|_| big_equality::<PQ<CollideSome>, PQ<CollideSome>, PQ<StdRandom>>(pairs, |a, b| a == b && b == a, |a, b| a == b, |a, b| b == a))
+        }
+    })
 }
 
 /// a: From<Vec>, b: pushes in reverse order (same hasher type, own instance), c: FromIterator with
@@ -1455,6 +1490,7 @@ pub fn run_c18(tier: Tier) -> Outcome {
     one!(StdRandom, "std RandomState (run 2)");
     one!(FnvBuild, "no_std-friendly fnv via with_default_hasher / with_hasher");
     one!(CollideAll, "all-colliding (every hash = 0)");
+    one!(CollideSome, "partially colliding (4 hash classes)");
     // large queues under the degenerate hasher (every lookup walks one bucket) and RandomState
     {
         let alpha = A_CORE | A_RETAIN | A_CONVERT | A_BORROWED | A_EXTEND | A_APPEND | A_ITER_MUT | A_CLEAR_DRAIN;
@@ -1464,6 +1500,10 @@ pub fn run_c18(tier: Tier) -> Outcome {
             return out;
         }
         let sizes: Vec<usize> = if q { vec![40, 65, 128] } else { vec![40, 64, 65, 128, 129, 256, 257, 512, 1025] };
+        run_large::<FnvBuild>(&mut out, prop, &[false, true], alpha, &sizes, 0, &no_probes);
+        if !out.violations.is_empty() {
+            return out;
+        }
         run_large::<StdRandom>(&mut out, prop, &[false, true], alpha, &sizes, 0, &no_probes);
         if !out.violations.is_empty() {
             return out;
@@ -1493,16 +1533,8 @@ pub fn run_c18(tier: Tier) -> Outcome {
             for seed in f_struct(n) {
                 let Root::FromVec(pairs) = &seed else { continue };
                 for d in [false, true] {
-                    cases += 3;
-                    let r = if d {
-                        big_equality::<DPQ<StdRandom>, DPQ<StdRandom>, DPQ<CollideAll>>(pairs, |a, b| a == b, |a, b| a == b, |a, b| b == a)
-                            .and_then(|_| big_equality::<DPQ<Seeded>, DPQ<Seeded>, DPQ<FixedSip>>(pairs, |a, b| a == b, |a, b| a == b, |a, b| b == a))
-                            .and_then(|_| big_equality::<DPQ<FnvBuild>, DPQ<FnvBuild>, DPQ<StdRandom>>(pairs, |a, b| a == b, |a, b| a == b, |a, b| b == a))
-                    } else {
-                        big_equality::<PQ<StdRandom>, PQ<StdRandom>, PQ<CollideAll>>(pairs, |a, b| a == b, |a, b| a == b, |a, b| b == a)
-                            .and_then(|_| big_equality::<PQ<Seeded>, PQ<Seeded>, PQ<FixedSip>>(pairs, |a, b| a == b, |a, b| a == b, |a, b| b == a))
-                            .and_then(|_| big_equality::<PQ<FnvBuild>, PQ<FnvBuild>, PQ<StdRandom>>(pairs, |a, b| a == b, |a, b| a == b, |a, b| b == a))
-                    };
+                    cases += 5;
+                    let r = big_equality_hashers(pairs, d);
                     if let Err(e) = r {
                         viol.push(Case { prop: prop.into(), hasher: StdRandom::NAME.into(), double: d, root: seed.clone(), ops: vec![], last: None, probe: Some("big-equality-hashers".into()), detail: e, universe: vec![], aux: None, trail: vec![], params: vec![] });
                         break 'outer;
@@ -1510,7 +1542,7 @@ pub fn run_c18(tier: Tier) -> Outcome {
                 }
             }
         }
-        absorb_post(&mut out, "== between independently built queues of 5..33 elements: separate RandomState instances, seeded vs fixed sip, fnv vs RandomState, RandomState vs all-colliding", cases, viol, t0, json!({}));
+        absorb_post(&mut out, "== between independently built queues of 5..33 elements: separate RandomState instances, seeded vs fixed sip, fnv vs RandomState, RandomState vs all-colliding, all-colliding vs all-colliding (different insertion orders), partially colliding (4 hash classes)", cases, viol, t0, json!({}));
         if !out.violations.is_empty() {
             return out;
         }
